@@ -74,6 +74,21 @@ type chanSt struct {
 	ch       any // keeps the channel alive, so its address is never reused
 	closed   bool
 	internal bool
+	capKnown bool
+	cap      int
+}
+
+// lenCap: the capacity never changes, and an unbuffered channel is always empty.
+func (c *chanSt) lenCap(ch any) (int, int) {
+	if !c.capKnown {
+		_, c.cap = chanLenCap(ch)
+		c.capKnown = true
+	}
+	if c.cap == 0 {
+		return 0, 0
+	}
+	n, _ := chanLenCap(ch)
+	return n, c.cap
 }
 
 type lockSt struct {
@@ -83,16 +98,18 @@ type lockSt struct {
 }
 
 type sched struct {
-	seg     *Segment
-	q       chan rt.Msg
-	rng     splitmix
-	byGoid  map[uint64]*gor
-	byTok   map[uint64]*gor
-	gors    []*gor
-	locks   map[uintptr]*lockSt
-	conds   map[uintptr][]*gor // waiters per sync.Cond, in arrival order
-	chans   map[uintptr]*chanSt
-	addrIdx map[uintptr]int
+	seg      *Segment
+	q        chan rt.Msg
+	rng      splitmix
+	byGoid   map[uint64]*gor
+	byTok    map[uint64]*gor
+	gors     []*gor
+	locks    map[uintptr]*lockSt
+	conds    map[uintptr][]*gor // waiters per sync.Cond, in arrival order
+	chans    map[uintptr]*chanSt
+	waitRecv map[uintptr]map[*gor]bool // parked goroutines wanting to receive from a channel
+	waitSend map[uintptr]map[*gor]bool
+	addrIdx  map[uintptr]int
 
 	step       int
 	last       *gor
@@ -142,6 +159,8 @@ func newSched(seg *Segment, progress *atomic.Int64) *sched {
 		locks:     map[uintptr]*lockSt{},
 		conds:     map[uintptr][]*gor{},
 		chans:     map[uintptr]*chanSt{},
+		waitRecv:  map[uintptr]map[*gor]bool{},
+		waitSend:  map[uintptr]map[*gor]bool{},
 		addrIdx:   map[uintptr]int{},
 		h:         sha256.New(),
 		sig:       fnv.New64a(),
@@ -319,6 +338,7 @@ func (s *sched) handle(m rt.Msg) {
 	}
 	mm := m
 	g.msg = &mm
+	s.index(g, g.msg, true)
 }
 
 func (s *sched) canRun(g *gor) bool {
@@ -401,32 +421,74 @@ func chanLenCap(ch any) (int, int) {
 
 // waiters returns the parked goroutines (other than except) that want to
 // receive from (recv=true) or send on addr: plain operations and selects.
+// Served from an index kept up to date on every park and release.
 func (s *sched) waiters(addr uintptr, recv bool, except *gor) []*gor {
-	var ws []*gor
-	for _, g := range s.gors[1:] {
-		if g == except || g.msg == nil {
-			continue
+	idx := s.waitSend
+	if recv {
+		idx = s.waitRecv
+	}
+	m := idx[addr]
+	if len(m) == 0 {
+		return nil
+	}
+	ws := make([]*gor, 0, len(m))
+	for g := range m {
+		if g != except {
+			ws = append(ws, g)
 		}
-		switch g.msg.Kind {
-		case rt.KRecvPre:
-			if recv && g.msg.Addr == addr {
-				ws = append(ws, g)
-			}
-		case rt.KSendPre:
-			if !recv && g.msg.Addr == addr {
-				ws = append(ws, g)
-			}
-		case rt.KSelectPre:
-			for i := 0; i < g.msg.NCases; i++ {
-				c := &g.msg.Cases[i]
-				if c.Addr == addr && c.Send == !recv {
-					ws = append(ws, g)
-					break
-				}
+	}
+	sort.Slice(ws, func(i, j int) bool { return ws[i].id < ws[j].id })
+	return ws
+}
+
+func (s *sched) hasWaiter(addr uintptr, recv bool, except *gor) bool {
+	idx := s.waitSend
+	if recv {
+		idx = s.waitRecv
+	}
+	for g := range idx[addr] {
+		if g != except {
+			return true
+		}
+	}
+	return false
+}
+
+func idxSet(idx map[uintptr]map[*gor]bool, addr uintptr, g *gor, on bool) {
+	if addr == 0 {
+		return
+	}
+	if on {
+		m := idx[addr]
+		if m == nil {
+			m = map[*gor]bool{}
+			idx[addr] = m
+		}
+		m[g] = true
+		return
+	}
+	if m := idx[addr]; m != nil {
+		delete(m, g)
+	}
+}
+
+// index registers (on) or removes a parked goroutine's channel interests.
+func (s *sched) index(g *gor, m *rt.Msg, on bool) {
+	switch m.Kind {
+	case rt.KRecvPre:
+		idxSet(s.waitRecv, m.Addr, g, on)
+	case rt.KSendPre:
+		idxSet(s.waitSend, m.Addr, g, on)
+	case rt.KSelectPre:
+		for i := 0; i < m.NCases; i++ {
+			c := &m.Cases[i]
+			if c.Send {
+				idxSet(s.waitSend, c.Addr, g, on)
+			} else {
+				idxSet(s.waitRecv, c.Addr, g, on)
 			}
 		}
 	}
-	return ws
 }
 
 // sendReady: can a send on the channel proceed without blocking, and does it
@@ -439,11 +501,11 @@ func (s *sched) sendReady(addr uintptr, ch any, g *gor) (ready, partner bool) {
 	if c.closed {
 		return true, false // will panic, as it must
 	}
-	n, cp := chanLenCap(ch)
+	n, cp := c.lenCap(ch)
 	if n < cp {
 		return true, false
 	}
-	if cp == 0 && len(s.waiters(addr, true, g)) > 0 {
+	if cp == 0 && s.hasWaiter(addr, true, g) {
 		return true, true
 	}
 	return false, false
@@ -454,7 +516,7 @@ func (s *sched) recvReady(addr uintptr, ch any, g *gor) (ready, partner bool) {
 		return false, false
 	}
 	c := s.chanOf(addr, ch)
-	n, cp := chanLenCap(ch)
+	n, cp := c.lenCap(ch)
 	if n > 0 {
 		return true, false
 	}
@@ -466,7 +528,7 @@ func (s *sched) recvReady(addr uintptr, ch any, g *gor) (ready, partner bool) {
 	if c.closed {
 		return true, false
 	}
-	if cp == 0 && len(s.waiters(addr, false, g)) > 0 {
+	if cp == 0 && s.hasWaiter(addr, false, g) {
 		return true, true
 	}
 	return false, false
@@ -709,6 +771,7 @@ func (s *sched) release(g *gor, run []*gor) {
 			s.selects++
 		}
 	}
+	s.index(g, m, false)
 	g.msg = nil
 	switch m.Kind {
 	case rt.KSpawn:
@@ -829,6 +892,7 @@ func (s *sched) release(g *gor, run []*gor) {
 // releasePaired releases the second party of a rendezvous with a fixed payload.
 func (s *sched) releasePaired(g *gor, payload uint64) {
 	m := g.msg
+	s.index(g, m, false)
 	g.msg = nil
 	if m.Kind == rt.KSendPre {
 		s.chanOf(m.Addr, m.Ch).internal = true
